@@ -1,0 +1,43 @@
+//go:build verif
+
+// Add-only hooks for the verification harness in /verif (properties C17 and C19), second file.
+// No behaviour of the package is changed.
+package app
+
+import "unsafe"
+
+// verifSyncTrack is a track name no upload can have (it contains a slash).
+const verifSyncTrack = "verif/sync"
+
+// Sync returns when the goroutine of channel chName has finished every message that was in
+// recSegCh before the call: it sends cap(recSegCh)+1 messages of a track that is not registered
+// (receivedSegData returns at once for those); the last send can only complete after the first of
+// them was taken out of the channel, which happens after everything queued before was processed.
+func (v *VerifReceiver) Sync(chName string) bool {
+	ch, ok := v.R.channelMgr.GetChannel(chName)
+	if !ok {
+		return false
+	}
+	for i := 0; i < cap(ch.recSegCh)+1; i++ {
+		ch.recSegCh <- recSegData{name: verifSyncTrack}
+	}
+	return true
+}
+
+// NrChannels is len(channelMgr.channels).
+func (v *VerifReceiver) NrChannels() int {
+	cm := v.R.channelMgr
+	cm.mu.RLock()
+	defer cm.mu.RUnlock()
+	return len(cm.channels)
+}
+
+// ChannelPtr identifies the channel object currently registered under chName (for C19: two
+// uploads that were handed different objects for the same name).
+func (v *VerifReceiver) ChannelPtr(chName string) uintptr {
+	ch, ok := v.R.channelMgr.GetChannel(chName)
+	if !ok {
+		return 0
+	}
+	return uintptr(unsafe.Pointer(ch))
+}
